@@ -336,16 +336,28 @@ func runBufLong(c *core.Ctx, o longOpts) *longHist {
 		h.anomaly("progress", "client-hang", "consumer clients did not finish after their contexts were cancelled:\n%s", core.DumpAll())
 		return h
 	}
-	// quiescent checks
+	// quiescent checks (no operation is in flight any more, but the cleaner may still be working off a cooldown:
+	// the offset can only grow and the size only shrink, so every comparison brackets the value between two snapshots)
 	off, sz, _ := b.VerifSnapshot()
 	if off+sz != h.totalVals {
 		h.anomaly("retention", "conservation-final", "at quiescence offset+size=%d but %d values were put", off+sz, h.totalVals)
 	}
-	if n := b.Size(); n != sz {
-		h.anomaly("retention", "size-mismatch", "Size()=%d but the buffer holds %d", n, sz)
-	}
+	n := b.Size()
+	sc := core.Now()
 	fin, _ := toInts(b.Slice())
-	h.slices = append(h.slices, sliceObs{call: core.Now(), ret: core.Now(), vals: fin, off: off, sz: sz})
+	sr := core.Now()
+	off2, sz2, _ := b.VerifSnapshot()
+	if off2+sz2 != h.totalVals {
+		h.anomaly("retention", "conservation-final", "at quiescence offset+size=%d but %d values were put", off2+sz2, h.totalVals)
+	}
+	if n > sz || n < sz2 {
+		h.anomaly("retention", "size-mismatch", "Size()=%d but the buffer held %d before and %d after the call", n, sz, sz2)
+	}
+	if len(fin) > sz || len(fin) < sz2 {
+		h.anomaly("retention", "slice-size-mismatch", "Slice() has %d values but the buffer held %d before and %d after the call", len(fin), sz, sz2)
+	}
+	h.slices = append(h.slices, sliceObs{call: sc, ret: sr, vals: fin, off: off2, sz: sz2})
+	off = off2
 	h.shifts = int64(off)
 	_ = b.Close()
 	return h
